@@ -30,7 +30,7 @@ func init() {
 	Register("C28", &Info{
 		Run:   runC28,
 		Quick: 6000, Thor: 500000,
-		Rule: "a world = one connection with an AEAD suite (TLS 1.2: AES-GCM and ChaCha20 suites; TLS 1.3: the three suites) against the repository or std server; after k drawn echo rounds (sequence position) the client calls GetOutKeystream(n) for a drawn n (0..record size), then writes a drawn plaintext; the ciphertext of that record is taken from the wire tap; oracle: keystream XOR plaintext == ciphertext after the explicit nonce, for min(n, len) bytes; the peer still accepts that record and all later ones (echo continues); non-trivial = keystream compared with a captured record; distinct = (version, suite, n, position, plaintext length)",
+		Rule: "a world = one connection with an AEAD suite (TLS 1.2: AES-GCM and ChaCha20 suites; TLS 1.3: the three suites) against the repository or std server; after k drawn echo rounds (sequence position) the client calls GetOutKeystream(n) for a drawn n (0..record size) - a quarter of the worlds from inside the transport's Write of the preceding record -, then writes a drawn plaintext; the ciphertext of that record is taken from the wire tap; oracle: keystream XOR plaintext == ciphertext after the explicit nonce, for min(n, len) bytes; the peer still accepts that record and all later ones (echo continues); non-trivial = keystream compared with a captured record; distinct = (version, suite, n, position, plaintext length)",
 		Assumptions: []string{"explicit nonce: 8 bytes for TLS 1.2 AES-GCM records, none for ChaCha20 and TLS 1.3 (RFC 5288, 7905, 8446)"},
 		Real:        []string{"utls client (GetOutKeystream, record layer) from /repo", "utls or std server"},
 		Stub:        []string{"transport (wire tap), clock, crypto/rand"},
@@ -256,6 +256,15 @@ func runC28(c *Ctx) {
 	c.R.Class = fmt.Sprintf("v=%x suite=%04x peer=%s rounds=%d n=%d plen=%d phases=%d between=%s/%x", sc.ver, sc.suite, peerName(peer), rounds, n, plen, phases, between, jumpTo)
 	var ks [2][]byte
 	var ksErr error
+	// a quarter of the worlds ask for the keystream from inside the transport's Write call
+	fromTransport := ch.Bool(25, "keystream-from-transport-write")
+	var ksWant, ksGot bool
+	var ksPending []byte
+	extraEcho := 0 // the "record-before" echo of phase 0 shifts the server's echo count
+	if fromTransport {
+		extraEcho = 1
+	}
+	c.R.Class += fmt.Sprintf(" from-transport=%v", fromTransport)
 	markPending := false
 	var tapAts []int
 	var l *simnet.Link
@@ -263,7 +272,7 @@ func runC28(c *Ctx) {
 	sp := &ConnSpec{ID: tls.HelloCustom, Spec: singleSuiteSpec(sc.ver, sc.suite), CCfg: &tls.Config{ServerName: "example.test", RootCAs: Roots()}, Peer: peer, SCfg: scfg, StdCfg: stdcfg, RefCfg: rcfg,
 		Setup: func(ll *simnet.Link) { l = ll; ll.Frag = ch.Bool(30, "frag") }}
 	if between == "key-update" {
-		sp.ServerKeyUpdate = func(i int) (bool, bool) { return i == rounds, true }
+		sp.ServerKeyUpdate = func(i int) (bool, bool) { return i == rounds+extraEcho, true }
 	}
 	// key-update-during-write: phase 0 as usual; then a trigger message makes the server send
 	// KeyUpdate(update_requested); the client->server direction stalls for 3 s behind a 512-byte send
@@ -273,7 +282,7 @@ func runC28(c *Ctx) {
 	var kuwAuxErr error
 	kuwBig := make([]byte, 20000)
 	if between == "key-update-during-write" {
-		sp.ServerKeyUpdate = func(i int) (bool, bool) { return i == rounds+1, true } // rounds echoes + the phase-0 plaintext come first
+		sp.ServerKeyUpdate = func(i int) (bool, bool) { return i == rounds+1+extraEcho, true } // rounds echoes + the phase-0 plaintext come first
 		sp.AuxClient = func(o *ConnOutcome) {
 			for !kuwWriting {
 				if o.clientGone || kuwAuxDone {
@@ -345,7 +354,22 @@ func runC28(c *Ctx) {
 					return
 				}
 			}
-			ks[ph], ksErr = u.GetOutKeystream(n)
+			if fromTransport {
+				// the query is made from inside the transport's Write of the record before (the one
+				// place a caller can reach while a Write is in progress without racing with it): that
+				// record has been sealed, so the "next record" is the one after it
+				ksWant, ksGot = true, false
+				if !echo([]byte("record-before")) {
+					return
+				}
+				if !ksGot {
+					ioErr = fmt.Errorf("harness: the transport saw no write")
+					return
+				}
+				ks[ph] = ksPending
+			} else {
+				ks[ph], ksErr = u.GetOutKeystream(n)
+			}
 			if ksErr != nil {
 				return
 			}
@@ -358,6 +382,11 @@ func runC28(c *Ctx) {
 	}
 	// remember the tap position at which the record following each GetOutKeystream starts
 	sp.OnClientWrite = func(ll *simnet.Link, b []byte) {
+		if ksWant && o != nil && o.U != nil {
+			ksWant, ksGot = false, true
+			ksPending, ksErr = o.U.GetOutKeystream(n)
+			c.Fault("keystream-from-transport-write", 1)
+		}
 		if markPending {
 			markPending = false
 			tapAts = append(tapAts, len(ll.AB.Sent))
